@@ -437,13 +437,20 @@ def _co(env, s, d, sloc=None, dloc=None, top=False) -> Co:  # noqa: C901, PLR091
         return Co(YES, lambda x, ctx: func(x), rule="user coercer")
     if env.transparent:
         s, d = deep_strip(s), deep_strip(d)
-    if same(s, d):
-        # a same-type pair of models may equally be rebuilt field by field: equal description either way
-        return Co(YES, _as_is, rule="same type")
+    same_type = same(s, d)
     if d == ANY:
-        return Co(YES, _as_is, rule="destination Any")
+        return Co(YES, _as_is, rule="same type" if same_type else "destination Any")
 
     found = []   # Co of every applicable rule
+    if same_type:
+        # equal types pass as is - but the structural rules stand before that rule (tutorial: "models, Optional, iterables and
+        # dicts are converted item by item"; the builtin recipe has them first), so whatever the recipe says about the items (a
+        # user coercer for the element type, a link inside a model kept in a dict) still applies below an unchanged container
+        # (and a failure below is a failure of the whole: the item-by-item providers demand their items, they do not decline)
+        deep = _co_structural(env, s, d, top)
+        if deep is None:
+            return Co(YES, _as_is, rule="same type")
+        return Co(deep.verdict, deep.fn, rule="same type, item by item: " + deep.rule, ambiguous=deep.ambiguous)
 
     # R3 subclass (excluding generics)
     if _is_class(env, s) and _is_class(env, d):
@@ -503,6 +510,29 @@ def _co(env, s, d, sloc=None, dloc=None, top=False) -> Co:  # noqa: C901, PLR091
     if verdict == UNSPEC:
         return Co(UNSPEC, rule=next(c.rule for c in found if c.verdict == UNSPEC))
     return Co(NO, rule=found[0].rule if found else "no rule applies")
+
+
+def _co_structural(env, s, d, top) -> Optional[Co]:
+    """the item-by-item rules alone (Optional, builtin iterables, dicts, models) for a pair of equal types"""
+    if is_optional(s) and is_optional(d):
+        inner = _co(env, not_none(s), not_none(d))
+        if inner.verdict != YES:
+            return Co(inner.verdict, rule="optional: " + inner.rule)
+        fn = inner.fn
+        return Co(YES, lambda x, ctx: None if x is None else fn(x, ctx), rule="optional", ambiguous=inner.ambiguous)
+    if s[0] in ITER_IMPL and d[0] in ITER_IMPL and s[0] not in ITER_UNCERTAIN:
+        return _co_iterable(env, s, d)
+    if s[0] in DICT_IMPL and d[0] in DICT_IMPL and s[0] not in DICT_UNCERTAIN and s[0] != "Counter":
+        kco, vco = _co(env, s[1], d[1]), _co(env, s[2], d[2])
+        verdict = and3([kco.verdict, vco.verdict])
+        if verdict != YES:
+            return Co(verdict, rule="dict: " + (kco.rule if kco.verdict == verdict else vco.rule))
+        kfn, vfn = kco.fn, vco.fn
+        return Co(YES, lambda x, ctx: {kfn(k, ctx): vfn(v, ctx) for k, v in x.items()}, rule="dict",
+                  ambiguous=kco.ambiguous or vco.ambiguous)
+    if is_model(s) and is_model(d):
+        return _co_model(env, s, d, top)
+    return None
 
 
 def _co_iterable(env, s, d) -> Co:
